@@ -12,7 +12,7 @@ RULE = ("every case is executed on hash_based / kdtree and on nearest_neighbor; 
         "reference {(i,j,lev)<=k} and the engines' sets with each other (differential); non-trivial = expected set non-empty")
 ASSUMPTIONS = ["hash_based is exponential in max_edits: k=2 up to U(.,4)/(thorough U(.,5) one alphabet), k=3 only on U(.,2)",
                "kdtree radius-boundary family uses homopolymer blocks so that the composition vectors differ by exactly sqrt(2)*k"]
-REQUIRED_CLASSES = {"all": ["bin-straddling-alphabet", "radius-boundary-pair", "duplicate-at-distance-0", "has-empty-string", "size-boundary-family", "equal-length-pair-needs-indels", "long-anagram-pair", "all-sequences-of-one-length", "shared-prefix-and-suffix"]}
+REQUIRED_CLASSES = {"all": ["bin-straddling-alphabet", "radius-boundary-pair", "duplicate-at-distance-0", "has-empty-string", "size-boundary-family", "equal-length-pair-needs-indels", "long-anagram-pair", "all-sequences-of-one-length", "shared-prefix-and-suffix", "default-call-after-option-call"]}
 MIN_OUTCOMES = 10
 
 ALPHAS = ("ACD", "DEF", "WYA")   # straddle kdtree composition bins at compression 1, 2, 3 (aminoacids = ACDEFGHIKLMNPQRSTVWY)
@@ -52,6 +52,9 @@ def spaces(tier):
         yield ("eqlen-uni", "hash_based", "ACD", 4, 1)
         yield ("eqlen-uni", "hash_based", "ACD", 3, 2)
         yield ("flanks",)
+        yield ("after-max_returns",)
+        if not q:
+            yield ("hash4",)
         yield ("sizefam", "kdtree", 1025, 2)
         for N in (257, 1025):
             yield ("sizefam", "hash_based", N, 1)
@@ -141,6 +144,21 @@ def check_case(case, acc):
         seqs = ["".join(t) for t in itertools.product(alpha, repeat=L)]
         acc.cls("all-sequences-of-one-length")
         compare(acc, case, eng, seqs, k, neighbors_within(seqs, k), False)
+    elif kind == "after-max_returns":
+        # interchangeable engines: a default kdtree call gives the full neighbour set also after kdtree calls that used its options
+        import pyrepseq
+        acc.cls("default-call-after-option-call")
+        hub = ["CASSLG", "CASSLA", "CASSLC", "CASSLD", "CASSL", "CASSLGG", "AASSLG", "CWSSLG"]
+        acc.call(pyrepseq.kdtree, ["CAF", "CAW", "CAY", "CAH"], 1, max_returns=1)
+        acc.call(pyrepseq.kdtree, list(hub), 2, max_returns=2, compression=3, custom_distance="hamming")
+        for k in (1, 2):
+            exp = neighbors_within(hub, k)
+            for eng in ("kdtree", "hash_based"):
+                compare(acc, case, eng, hub, k, exp, True)
+    elif kind == "hash4":
+        acc.cls("hash_based-k4")
+        seqs = ["", "AC", "A"]
+        compare(acc, case, "hash_based", seqs, 4, neighbors_within(seqs, 4), True)
     elif kind == "flanks":
         # CDR3-like collections: every member shares a prefix and a suffix (C...F), members differ by indels in a repeated stretch
         fam = ["CASSF", "CASF", "CASSSF", "CAF", "CASSSSF", "CSF", "CASAF"]
